@@ -510,6 +510,119 @@ def s5Server (auth : Bool) (check : Bytes → Bytes → Bool) (enableTCP enableU
     let st ← st.replyWithStatus status
     pure (a, st.w)
 
+/-! ### socks5/stream.go — the client side: replies of a (hostile) server -/
+
+/-- `clientNegotiateAuthMethod(rw, b, method)` -/
+def s5ClientNegotiate (method : Nat) (st : S5) : R S5 :=
+  if st.b.length < Gen.C06.clientNegotiateAuthMethod_lenGuard0 then .panic else do
+  let st ← st.set 0 (UInt8.ofNat Gen.C06.Version)
+  let st ← st.set 1 1
+  let st ← st.set 2 (UInt8.ofNat method)
+  let st ← st.writeTo 3
+  let st ← st.readInto 0 2
+  let v ← idx st.b 0
+  if v.toNat ≠ Gen.C06.Version then .err .version else do
+  let m ← idx st.b 1
+  if m.toNat ≠ method then .err .unsupportedMethod else pure st
+
+/-- `clientDoUsernamePasswordAuth(rw, b, authMsg)` -/
+def s5ClientAuth (authMsg : Bytes) (st : S5) : R S5 :=
+  if st.b.length < Gen.C06.clientDoUsernamePasswordAuth_lenGuard0 then .panic else do
+  let st := { st with w := st.w ++ authMsg }
+  let st ← st.readInto 0 2
+  let v ← idx st.b 0
+  if v.toNat ≠ Gen.C06.UsernamePasswordAuthVersion then .err .authVersion else do
+  let status ← idx st.b 1
+  if status.toNat ≠ 0 then .err .badAuth else pure st
+
+/-- `clientDoRequest(rw, b, command, targetAddr)`; `enc` = the SOCKS encoding of `targetAddr`
+(`WriteAddrFromConnAddr(b[3:], targetAddr)` "does not check whether b has sufficient space") -/
+def s5ClientRequest (cmd : UInt8) (enc : Bytes) (st : S5) : R (S5 × Addr) :=
+  if st.b.length < Gen.C06.clientDoRequest_lenGuard0 then .panic else do
+  let st ← st.set 0 (UInt8.ofNat Gen.C06.Version)
+  let st ← st.set 1 cmd
+  let st ← st.set 2 0
+  let tail ← sliceFrom st.b 3
+  if tail.length < enc.length then .panic else do          -- index / PutUint16 beyond b[3:]
+  let st := { st with b := st.b.take 3 ++ enc ++ st.b.drop (3 + enc.length) }
+  let st ← st.writeTo (3 + enc.length)
+  let st ← st.readInto 0 5
+  let v ← idx st.b 0
+  if v.toNat ≠ Gen.C06.Version then .err .version else do
+  let _ ← slice st.b 3 3
+  let pre ← slice st.b 3 5
+  let (sa, rest) ← appendFromReader (pre ++ st.s)
+  let st := { st with b := st.b.take 3 ++ sa ++ st.b.drop (3 + sa.length), s := rest }
+  let (a, _) ← connAddrFromSlice sa
+  let rep ← idx st.b 1
+  if rep.toNat ≠ Gen.C06.ReplySucceeded then .err .replyErr else pure (st, a)
+
+/-- `ClientRequest` / `ClientRequestUsernamePassword` on a fresh scratch buffer -/
+def s5Client (auth : Bool) (authMsg : Bytes) (cmd : UInt8) (enc : Bytes) (stream : Bytes) : R Addr := do
+  let st : S5 := ⟨List.replicate (3 + Gen.C06.MaxAddrLen) 0, stream, []⟩
+  let st ← s5ClientNegotiate (if auth then Gen.C06.MethodUsernamePassword else Gen.C06.MethodNoAuthenticationRequired) st
+  let st ← (if auth then s5ClientAuth authMsg st else pure st)
+  let (_, a) ← s5ClientRequest cmd enc st
+  pure a
+
+/-! ### ss2022/stream.go — `ShadowStreamConn.read`: payload chunks of an authenticated (but possibly hostile) peer -/
+
+/-- `(*ShadowStreamConn).read(b)`: `cap` = `cap(b)`; `openChunk` = AEAD open of one sealed chunk (in place).
+Returns the chunk's payload length and the rest of the stream. -/
+def streamRead (cap : Nat) (openChunk : Bytes → Option Bytes) (s : Bytes) : R (Nat × Bytes) :=
+  if cap < Gen.C06.streamReadMinBufferSize then .panic else
+  if cap < 2 + Gen.C06.tagSize then .panic else do                       -- b[:2+tagSize]
+  let (ct, s) ← readFull s (2 + Gen.C06.tagSize)
+  match openChunk ct with
+  | Option.none => .err .aead
+  | some pt => do
+    let length ← be16 (pt.take 2 ++ ct.drop 2)                            -- Uint16 of the buffer decrypted in place
+    if length = 0 then .err .zeroLengthChunk else
+    if cap < length + Gen.C06.tagSize then .panic else do                 -- b[:length+tagSize]
+    let (ct2, s) ← readFull s (length + Gen.C06.tagSize)
+    match openChunk ct2 with
+    | Option.none => .err .aead
+    | some _ => pure (length, s)
+
+/-! ### httpproxy/server.go — `hostHeaderToAddr`, `serverHandleBasicAuth` (own logic; `net.SplitHostPort`,
+`strconv.ParseUint`, `netip.ParseAddr` are parameters returning ok/err) -/
+
+/-- `conn.AddrFromHostPort(host, port)`; `parseIP` = `netip.ParseAddr` -/
+def addrFromHostPort (parseIP : Bytes → Option (Bool × Bytes)) (host : Bytes) (port : Nat) : R Addr :=
+  match parseIP host with
+  | some (true, a) => .ok (.ip4 a port)
+  | some (false, a) => .ok (.ip6 a port)
+  | Option.none => addrFromDomainPort host port
+
+/-- `hostHeaderToAddr(host)`; `parseAddr` = `conn.ParseAddr` (SplitHostPort + ParseUint + AddrFromHostPort), never panics by assumption -/
+def hostHeaderToAddr (parseIP : Bytes → Option (Bool × Bytes)) (parseAddr : Bytes → Option Addr) (host : Bytes) : R Addr :=
+  if host.length = 0 then .err .emptyHost
+  else if !host.contains 58 then addrFromHostPort parseIP host 80            -- strings.IndexByte(host, ':') == -1
+  else do
+    let first ← idx host 0
+    let last ← idx host (host.length - 1)
+    if first.toNat = 91 ∧ last.toNat = 93 then do                             -- '[' ... ']'
+      let inner ← slice host 1 (host.length - 1)
+      addrFromHostPort parseIP inner 80
+    else match parseAddr host with
+      | some a => .ok a
+      | Option.none => .err .splitHostPort
+
+/-- `serverHandleBasicAuth`: the credential prefix test on one `Proxy-Authorization` value -/
+def basicAuthToken (creds : Bytes) : R (Option Bytes) :=
+  if creds.length > 6 then do
+    let c0 ← idx creds 0
+    let c1 ← idx creds 1
+    let c2 ← idx creds 2
+    let c3 ← idx creds 3
+    let c4 ← idx creds 4
+    let c5 ← idx creds 5
+    if (c0 = 66 ∨ c0 = 98) ∧ (c1 = 97 ∨ c1 = 65) ∧ (c2 = 115 ∨ c2 = 83) ∧ (c3 = 105 ∨ c3 = 73) ∧ (c4 = 99 ∨ c4 = 67) ∧ c5 = 32 then do
+      let tok ← sliceFrom creds 6
+      pure (some tok)
+    else pure Option.none
+  else pure Option.none
+
 /-! ### router: criteria `Meet` on the wire-derived address, `Route.Match`, `Router.match` -/
 
 /-- `(*portset.PortSet).Contains`: panics on port 0 by contract -/
